@@ -241,3 +241,26 @@ PROPS["C15"] = dict(
               "under every split (<= 10 / 14 bytes), one-byte reads with up to 3 empty reads at every position, random schedules, "
               "compared with one-shot decoding (O) and the cursor-based decoder model (M); non-trivial = more than one read/step",
 )
+
+def rule_fault(body, I, M):
+    i = I.get("I", "")
+    if _bad_impl(i):
+        return dict(corr_ok=False, prop_ok=False, nontrivial=True, bucket="crash", why="implementation " + i)
+    corr_ok = (i == M.get("M")) and I.get("c") == M.get("c")
+    o = I.get("O", "ok")
+    prop_ok = (o == "ok")
+    return dict(corr_ok=corr_ok, prop_ok=prop_ok, nontrivial=i.endswith("E") or i.endswith("/inj"), bucket=i[-3:],
+                why=("oracle: " + o) if not prop_ok else ("" if corr_ok else "implementation and model differ"))
+RULES["fault"] = rule_fault
+
+PROPS["C16"] = dict(
+    level="proof",
+    lean_module="RefmtProofs.Props.C16",
+    theorems=[],
+    streams=[dict(name="wfault", gen="wfault", rule="fault"), dict(name="rfault", gen="rfault", rule="fault")],
+    title="I/O failures are reported, never swallowed",
+    claim="(work in progress)",
+    rule_text="wfault: documents x both encoders (JSON compact and pretty) x every Write-call index up to the number the document needs "
+              "x {error, short count, both} x {fail-once, fail-stop}, run step by step and through the real TokenPump; rfault: documents "
+              "of both formats x a distinguished reader error at every byte offset x {fail-once, fail-stop}; non-trivial = the fault fires",
+)
